@@ -105,6 +105,11 @@ def _run_tool(tool, entry, data, a, b, fin, fout, workdir):
     # every other input (by its length) runs the commands with their debugging switch: what a user adds when something
     # looks wrong must not change what the command writes
     dbg = ['--debug'] if len(data) % 2 else []
+    # every third input is given by a RELATIVE path from inside its directory (default output names derive from it)
+    cwd0 = os.getcwd()
+    if entry != 'func' and len(data) % 3 == 0:
+        os.chdir(workdir)
+        inp, outp = 'in.bin', 'out.bin'
     try:
         with quiet():
             if tool in ('mci_ipm_encode', 'mci_ipm_param_encode'):
@@ -165,7 +170,8 @@ def _run_tool(tool, entry, data, a, b, fin, fout, workdir):
                     outp = inp + '.out'
     finally:
         sys.argv = argv0
-    with open(outp, 'rb') as f:
+        os.chdir(cwd0)
+    with open(os.path.join(workdir, outp), 'rb') as f:
         return f.read()
 
 
